@@ -164,6 +164,9 @@ class JsonTypestate:
             for c in env.resolve_call(e):
                 if isinstance(c, FuncInfo) and c.fq in self.ret_state and c.name not in ('__init__', '__post_init__'):
                     return self.ret_state[c.fq]
+            if isinstance(f, ast.Attribute) and f.attr in ('get', 'pop', 'setdefault', 'copy') and \
+                    self.state(fn, f.value, f.value, depth + 1) is not None:
+                return U       # an element (or the default) taken out of a decoded JSON container: a JSON value again
             return None
         if isinstance(e, ast.IfExp):
             return join(self.state(fn, e.body, e.body, depth + 1), self.state(fn, e.orelse, e.orelse, depth + 1))
